@@ -122,7 +122,10 @@ def run(ctx):
     # a peer that stops reading while it is owed a long reply must not stall anybody else (W8 of the storm engine)
     from .. import storm
     sjobs = [(binary, hooks, s, 0, None, None, 3 if ctx.quick else 20, ctx.quick, ["stall", "quitflood", "stall"]) for s in ctx.seeds(4, "c05stall")]
-    with multiprocessing.Pool(4) as pool:
+    # W14: every read-only query, pipelined, against pipelined writers (no query may wait for itself)
+    sjobs += [(binary, hooks, s, 0, thr, None, 4 if ctx.quick else 25, ctx.quick, ["readers"])
+              for s, thr in zip(ctx.seeds(3, "c05readers"), (None, 2, 4))]
+    with multiprocessing.Pool(7) as pool:
         souts = pool.map(storm.worker, sjobs)
     for o in souts:
         res.evaluations += o["rounds"]
